@@ -318,6 +318,8 @@ class RefServer:
             self.emit(status(b"NO", None, b"injected refusal"))
         elif action == "NO-BARE":
             self.emit(status(b"NO"))  # no response code, no text (legal)
+        elif action.startswith("NO:"):
+            self.emit(status(b"NO", action[3:].encode("ascii"), b"injected refusal"))  # with the given response code
         elif action == "BYE":
             self.emit(status(b"BYE", None, b"injected bye"))
             self.closed = True
@@ -486,6 +488,8 @@ class RefServer:
                 self.emit(enc_quoted(b"") + CRLF)
                 return
             self.auth_log.append((mech, chan, args[1][1]))
+            if self._oauth_error():
+                return
             return self._auth_finish()
         if mech == "LOGIN":
             if len(args) > 1:
@@ -532,9 +536,16 @@ class RefServer:
             self.auth_state = None
             self._auth_finish()
             return True
+        if mech == "OAUTHBEARER-ERR":
+            # the client's dummy response to the error challenge (RFC 7628 3.2.3): the exchange now fails
+            self.auth_state = None
+            self._auth_finish()
+            return True
         if mech in ("PLAIN", "OAUTHBEARER"):
             self.auth_log.append((mech, chan, got[0]))
             self.auth_state = None
+            if mech == "OAUTHBEARER" and self._oauth_error():
+                return True
             self._auth_finish()
             return True
         if mech == "DIGEST-MD5":
@@ -601,6 +612,15 @@ class RefServer:
         if fields.get("nonce") != self.DIGEST_NONCE or fields.get("response") != kd("AUTHENTICATE:" + fields.get("digest-uri", "")):
             return None
         return kd(":" + fields.get("digest-uri", "")).encode("ascii")
+
+    def _oauth_error(self):
+        """RFC 7628 3.2.2/3.2.3: a refused token is answered with an error challenge; the client sends a dummy response and only
+        then gets the failure (servers configured with oauth_error_challenge)"""
+        if self.auth_ok or not getattr(self, "oauth_error_challenge", False):
+            return False
+        self.auth_state = ("OAUTHBEARER-ERR", [])
+        self.emit(enc_quoted(base64.b64encode(b'{"status":"invalid_token","scope":"mail"}')) + CRLF)
+        return True
 
     def _auth_finish(self, sasl=None):
         f = self.fault_for("AUTHRESULT")
